@@ -197,8 +197,12 @@ def r4_completion_consumes(ctx):
         rem = m.calls_to(r"OccupiedEntry::<.*>::remove_entry$|OccupiedEntry::<.*>::remove$|HashMap::<.*>::remove$|HashMap::<.*>::remove_entry$")
         getm = m.calls_to(r"OccupiedEntry::<.*>::(get_mut|into_mut)$|HashMap::<.*>::get_mut$")
         R.check(bool(rem) and not getm, "C03.R4", "%s:removes-entry" % name, "%s removes the entry it returns" % name, "%s hands out the pending state without removing the entry" % name, "%s:%d" % (m.file, m.lo))
+        # the pending entry is selected by exact key only: no scan over the table picks "a matching" entry
+        scans = m.calls_to(r"HashMap::<.*>::(keys|iter|iter_mut|values|values_mut|retain|drain|extract_if|into_keys|into_values)$|IntoIterator>::into_iter$")
+        R.check(not scans, "C03.R4", "%s:exact-key-only" % name, "%s selects the pending entry by exact key (no scan of the table)" % name, "%s selects the pending entry by scanning the table (%s): a reply whose id (range) merely resembles a pending one completes it, so a call can complete with another id's response" % (name, sorted({short(x.name()) for x in scans})), "%s:%d" % (m.file, m.lo))
         # key = the parameter
-        ent = m.calls_to(r"HashMap::<.*>::entry$")
+        ent = m.calls_to(r"HashMap::<.*>::(entry|remove|remove_entry|get|get_mut|contains_key|get_key_value)$")
+        R.check(bool(ent), "C03.R4", "%s:keyed-lookup" % name, "%s performs a keyed lookup" % name, "%s performs no keyed lookup of the pending table" % name, "%s:%d" % (m.file, m.lo))
         for e in ent:
             lv = tr.origins(m, e.args[1])
             ok = bool(lv) and all(l.kind == "param" and l.detail["idx"] == 2 for l in lv)
@@ -216,11 +220,58 @@ def r5_allocator(ctx):
     R.check(bool(nx.calls_to(r"CurrentId::next_n$")), "C03.R5", "next-uses-next_n", "next() is next_n(1)", "CurrentId::next no longer goes through next_n", "%s:%d" % (nx.file, nx.lo))
 
 
+ORDERING = (r"Iterator::(min|max|min_by|max_by|min_by_key|max_by_key|is_sorted|cmp|partial_cmp|lt|le|gt|ge)$|"
+            r"Ord>?::(cmp|min|max|clamp)$|PartialOrd(<.*>)?>?::(partial_cmp|lt|le|gt|ge)$|"
+            r"slice::<impl \[T\]>::(sort|sort_unstable|sort_by|sort_unstable_by|sort_by_key|sort_unstable_by_key|binary_search)$|"
+            r"BTree(Map|Set)::<.*>::(insert|new)$")
+ID_TY = re.compile(r"jsonrpsee_types::(params::)?Id<")
+
+
+def _id_ordering_scan(F, R, crate_pat):
+    """request ids are matched, never ordered: Id derives Ord, which is numeric for Id::Number and lexicographic for
+    Id::Str, so any range/first/last computed by ordering Id values is wrong for string ids"""
+    n = 0
+    for b in F.real_bodies():
+        if not re.search(crate_pat, b.path) or is_test_body(b):
+            continue
+        # the derived impls themselves
+        if re.search(r"jsonrpsee_types::(params::)?Id<.*> as std::cmp::(Partial)?Ord", b.path):
+            continue
+        for c in b.calls:
+            nm = (c.name() or "") + " " + (c.callee or "")
+            if not re.search(ORDERING, c.name() or "") and not re.search(ORDERING, c.callee or ""):
+                continue
+            tys = [b.locals[c.dest["l"]]["ty"]] if c.dest else []
+            for a in c.args:
+                p = op_place(a)
+                if p is not None and not p.get("p"):
+                    tys.append(b.locals[p["l"]]["ty"])
+            tys += list(c.ga or [])
+            n += 1
+            if any(ID_TY.search(t or "") and "RequestId" not in (t or "") for t in tys):
+                R.bad("C03.R7", "%s:orders-Id:%s" % (fkey(b), (c.name() or "").split("::")[-1]), "%s orders request ids with Id's derived Ord (%s): numeric for Id::Number but lexicographic for Id::Str (\"10\" < \"8\"), so with string ids the wrong pending entry/range is selected" % (short(b.path), short(c.name() or "")), where(c))
+    return n
+
+
+def r7_ids_not_ordered(ctx):
+    F, R = ctx.F, ctx.R
+    n = _id_ordering_scan(F, R, r"^<?jsonrpsee_core::client::|^<?jsonrpsee_http_client::|^<?jsonrpsee_client_transport::|^<?jsonrpsee_wasm_client::|^<?jsonrpsee_ws_client::")
+    R.ok("C03.R7", "no-Id-ordering", "no ordering operation on Id values in the client crates (%d ordering calls inspected)" % n)
+
+
+def control_id_ordering(ctx):
+    from .common import control
+    control(ctx, "C03.R7", "min()/max()/< over jsonrpsee_types::Id", lambda r: _id_ordering_scan(ctx.F, r, r"^verif_fixtures::"))
+
+
+CONTROLS = [control_id_ordering]
+
+
 def r6_batch_slots(ctx):
     c12.r2_slot_index(ctx)
 
 
-RULES = [r1_id_and_wire_agree, r2_key_discipline, r3_insert_before_send, r4_completion_consumes, r5_allocator, r6_batch_slots]
+RULES = [r1_id_and_wire_agree, r2_key_discipline, r3_insert_before_send, r4_completion_consumes, r5_allocator, r6_batch_slots, r7_ids_not_ordered]
 
 LEVEL_TEXT = (
     "Structural necessary conditions of response demultiplexing decided from the type-checked program: the recorded id "
